@@ -1082,8 +1082,20 @@ def r4(ctx):
         # hypothesis refutes is not followed, whatever the shape of the decision (compound test, nested ifs,
         # early return, inverted if/else, boolean local, helper method)
         live = feasible_reachable(g, lambda t, f=f, cls=cls, agp=agp: _eval_under_precedent(t, ctx, cls, f.node, agp))
+        def alternatives(v, conds=()):
+            """(value, [(test, outcome)]) for each arm of a (nested) conditional expression that H does not refute."""
+            if isinstance(v, ast.IfExp):
+                t = _eval_under_precedent(v.test, ctx, cls, None, agp)
+                out = []
+                if t is not False:
+                    out += alternatives(v.body, conds + ((v.test, True),))
+                if t is not True:
+                    out += alternatives(v.orelse, conds + ((v.test, False),))
+                return out
+            return [(v, list(conds))]
+
         for r in rets:
-            v = inline_locals(f.node, r.value) if r.value is not None else None
+          for v, conds in alternatives(inline_locals(f.node, r.value) if r.value is not None else None):
             txt = unparse(v) if v is not None else "None"
             if isinstance(v, ast.Call):
                 nm = (call_name(v) or "")
@@ -1096,7 +1108,7 @@ def r4(ctx):
                 if nid not in live:
                     details.append("returns self only where is_precedent(self.operator, against) is false")
                     continue
-                guards = [(inline_locals(f.node, t), pol) for t, pol in g.edge_guards(nid)]
+                guards = [(inline_locals(f.node, t), pol) for t, pol in g.edge_guards(nid)] + conds
                 atoms = _ga(guards)
                 xs = _guarded_operators(guards)
                 if xs:
@@ -1243,15 +1255,14 @@ R.mutant("benign-clauselist-self-group-helper", EL, sub(
     "        if self.group and operators.is_precedent(self.operator, against):\n            return Grouping(self)\n        else:\n            return self\n\n\nclass OperatorExpression",
     "        needs = self._needs_parens(against)\n        if needs:\n            return Grouping(self)\n        else:\n            return self\n\n"
     "    def _needs_parens(self, op):\n        return self.group and operators.is_precedent(self.operator, op)\n\n\nclass OperatorExpression"), None)
-# the repairs of the two findings of this round must be silent
-R.mutant("benign-fix-between-members-grouped", DC, sub(
-    "                cleft,\n                expr=expr,\n                operator=operators.and_,\n            ),\n"
-    "            coercions.expect(\n                roles.BinaryElementRole,\n                cright,\n                expr=expr,\n                operator=operators.and_,\n            ),\n",
-    "                cleft,\n                expr=expr,\n                operator=operators.and_,\n            ).self_group(against=op),\n"
-    "            coercions.expect(\n                roles.BinaryElementRole,\n                cright,\n                expr=expr,\n                operator=operators.and_,\n            ).self_group(against=op),\n"), None)
-R.mutant("benign-fix-asboolean-consults-precedence", EL, sub(
-    "    def self_group(self, against: Optional[OperatorType] = None) -> Self:\n        return self\n\n    def _negate(self):\n        if isinstance(self.element, (True_, False_)):",
-    "    def self_group(self, against=None):\n        if against is not None and operators.is_precedent(self.operator, against):\n            return Grouping(self)\n        return self\n\n    def _negate(self):\n        if isinstance(self.element, (True_, False_)):"), None)
+# the repairs of the two findings of that round are now the tree (fix commits); their inverses are the defects
+R.mutant("between-members-not-grouped", DC, sub(
+    "                cleft,\n                expr=expr,\n                operator=operators.and_,\n            ).self_group(against=op),\n",
+    "                cleft,\n                expr=expr,\n                operator=operators.and_,\n            ),\n"), "C01-R4")
+R.mutant("asboolean-self-group-ignores-precedence", EL, sub(
+    "        if operators.is_precedent(self.operator, against):\n            return Grouping(self)\n        return self\n\n"
+    "    def _negate(self):\n        if isinstance(self.element, (True_, False_)):",
+    "        return self\n\n    def _negate(self):\n        if isinstance(self.element, (True_, False_)):"), "C01-R4")
 
 # ---- robustify round (rob-C1): shape-independent reading of is_precedent / _negate / self_group / constructors
 _ISP = """    if operator is against and is_natural_self_precedent(operator):
